@@ -21,11 +21,11 @@ from vf.zoo import unit, vec
 
 ID = "C01"
 LEVEL = "exploration"
-BUDGET = {"quick": 192, "thorough": 4800}
+BUDGET = {"quick": 384, "thorough": 7680}
 MIN_NONTRIVIAL = {"quick": 20, "thorough": 300}
 RULE = (
     "Hypothesis draws a system (Euclidean / Gaussian-split with every metric type and explicit integrators incl. "
-    "generated compositions, optional hard walls giving zero-weight states; at lower frequency Riemannian and "
+    "generated compositions, in half of the cases hard walls outside which the density is inf or NaN (zero-weight states); at lower frequency Riemannian and "
     "constrained systems with solver tolerances 1e-13), a relative step size 0.1-1.9 of the stability limit, a "
     "start state and a transition: static Metropolis (1-6 steps), random Metropolis (ranges within 1-7), multinomial "
     "and slice dynamic with max_tree_depth 1-3 (4 in thorough), both termination criteria, sub-tree checks on/off, "
@@ -57,7 +57,7 @@ def _case(draw, max_depth):
         spec = draw(zoo.system_spec(classes=classes, max_dim=3, allow_down=True))
         ispec = draw(dyn.integrator_spec(spec["cls"], tight=True))
     else:
-        spec = draw(zoo.system_spec(classes=["euclidean", "gaussian"], max_dim=3, allow_down=True, walls=True))
+        spec = draw(zoo.system_spec(classes=["euclidean", "gaussian"], max_dim=3, allow_down=True, walls=2))
         ispec = draw(dyn.integrator_spec("euclidean", tight=True, types=dyn.EXPLICIT))
     n = spec["dim"]
     kind = draw(st.sampled_from(TRANS))
@@ -221,6 +221,13 @@ def run_case(case) -> Result:
     if not np.all(np.isfinite(Z)):
         res.discarded = True
         res.classes.append("discard:orbit-non-finite")
+        return res
+    wall = model.dens.wall
+    if wall is not None and float(np.min(np.abs(np.abs(Z[:, :Z.shape[1] // 2]) - wall))) < 1e-7 * (1.0 + wall):
+        # an orbit point within rounding of the hard wall (Hypothesis likes q_i == wall): re-computed copies of the
+        # point fall on either side of the discontinuity depending on the start state - a measure-zero tie
+        res.discarded = True
+        res.classes.append("discard:orbit-point-on-wall")
         return res
     hs = {}
     for k in idx:
